@@ -32,14 +32,14 @@ theorem replace_undo_transitive (S : Schema) (hS : S ∈ familySchemas) (doc doc
 /-- `PM.C04.replaceAround_undo_bmp` with its schema guards discharged for the bundled schema family -/
 theorem replaceAround_undo_bmp (S : Schema) (hS : S ∈ familySchemas) (d d' : Node) (f t gf gt : Nat)
     (sl : Slice) (ins : Nat) (b : Bool) (hv : S.checkNode d = true) (hn : fnorm d.kids = true)
-    (hsn : fnorm sl.content = true) (hwf : sl.wf = true) (hins : (ins : Int) ≤ sl.size)
-    (hgo : f ≤ gf ∧ gf ≤ gt ∧ gt ≤ t) (h : S.apply (.replaceAround f t gf gt sl ins b) d = .ok d')
+    (hsn : fnorm sl.content = true) (hwf : sl.wf = true) (hgo : f ≤ gf ∧ gf ≤ gt ∧ gt ≤ t)
+    (h : S.apply (.replaceAround f t gf gt sl ins b) d = .ok d')
     (hst : b = true → contentBetween d' f (f + ins) = some false ∧
       contentBetween d' (f + ins + (gt - gf)) (f + sl.size.toNat + (gt - gf)) = some false)
     (hb : bmpDoc d = true) (hb' : bmpDoc d' = true) :
     ∃ inv, S.invert (.replaceAround f t gf gt sl ins b) d = .ok inv ∧ S.apply inv d' = .ok d :=
-  PM.C04.replaceAround_undo_bmp S (family_compatTrans _ hS) d d' f t gf gt sl ins b hv hn hsn hwf hins hgo h hst
-    hb hb'
+  PM.C04.replaceAround_undo_bmp S (family_compatTrans _ hS) d d' f t gf gt sl ins b hv hn hsn hwf hgo h hst hb
+    hb'
 
 /-- `PM.C04.removeMarkStep_undo` with its schema guards discharged for the bundled schema family -/
 theorem removeMarkStep_undo (S : Schema) (hS : S ∈ familySchemas) (doc doc' : Node) (f t : Nat) (m : Mark)
